@@ -70,7 +70,7 @@ theorem built_element {n el : Nat} {nm : Nat} {ps : List (Nat × Nat)} {as : Lis
     Built n (.element nm ps as cs) (HTree.node el (.element nm) (headKids el ps as ++ ts)) := by
   have hKn : (handlesList (headKids el ps as)).Nodup := nodup_handlesList_leavesFrom _ _
   refine ⟨?_, ?_, ?_⟩
-  · simp only [erase, treeOfContent, eraseList_append, hts.erase, eraseList_headKids,
+  · simp only [erase, treeOfContent, ffx_eraseList_append, hts.erase, eraseList_headKids,
       List.append_assoc]
   · intro h hh
     simp only [handles, handlesList_append_ff, List.mem_cons, List.mem_append] at hh
